@@ -109,7 +109,7 @@ def run_mass_case(ctx, case, model=True):
     except Exception as e:
         ctx.fail("predicate", "result-raises-" + core.error_class(e), f"{type(e).__name__}: {e}", where)
         return
-    pe = np.atleast_1d(rp.load_ratio) * obj.engine.rated_power          # brake power of the engine
+    pe = np.atleast_1d(rp.load_ratio) * case["engine"]["rated"]          # brake power of the engine
     reported = {sp.name for sp in (res.total_emission_kg or {})}
     wanted = {e["species"] for e in case["engine"].get("emissions", [])} | {"NOX"}
     if reported != wanted:
